@@ -26,10 +26,14 @@ Definition lstep (sets_flag : bool) (s : lstate) (o : lop) : lstate * lout :=
   match o with
   | LStart oc =>
       if l_started s then (s, RAlreadyStarted)
-      else match oc with
-           | SOk => ({| l_started := sets_flag; l_loops := S (l_loops s); l_waitq := l_waitq s |}, RStartOk)
-           | _ => (s, RStartErr)
-           end
+      else
+        (* an accepted Start drops the results of earlier runs that nobody collected (it drains the
+           result channel right after claiming the agent, before it talks to the pool): Wait is
+           about the run that starts here *)
+        match oc with
+        | SOk => ({| l_started := sets_flag; l_loops := S (l_loops s); l_waitq := [] |}, RStartOk)
+        | _ => ({| l_started := l_started s; l_loops := l_loops s; l_waitq := [] |}, RStartErr)
+        end
   | LStop =>
       match l_loops s with
       | O => (s, RNone)
